@@ -72,7 +72,10 @@ def run_impl(sc):
         visited = set()
         helper = DotGraphMachine(sm)          # one helper object reused while the machine moves on
         for k, s in enumerate(sc["visit"]):
-            sm.current_state_value = eng.state_value(sc, s)
+            if k % 4 in (2, 3):
+                sm.model.state = eng.state_value(sc, s)      # the state changes behind the machine's back (e.g. reloaded)
+            else:
+                sm.current_state_value = eng.state_value(sc, s)
             nodes, edges = parse_graph(helper() if k % 2 == 0 else sm._graph(), sc)
             out.append({"cur": s, "nodes": nodes, "edges": edges})
             visited.add(s)
@@ -126,6 +129,12 @@ def coq_case(sc, obs):
 VERDICT_FN = "(fun cs => fold_left (fun acc c => if Nat.eqb acc 0 then verdict c else acc) cs 0)"
 
 
+def _dups(sc, rng):
+    if sc["n"] >= 2 and sc.get("sstyle", "attr") == "attr" and rng.random() < 0.3:
+        sc["dup_names"] = sorted(rng.sample(range(sc["n"]), 2))
+    return sc
+
+
 def generate(rng, tier):
     n = 1200 if tier == "quick" else 20000
     scs = []
@@ -135,6 +144,9 @@ def generate(rng, tier):
         states = list(range(sc["n"]))
         rng.shuffle(states)
         sc["visit"] = states[:rng.randint(1, sc["n"])]
+        if rng.random() < 0.5:
+            sc["visit"] = sc["visit"] + [rng.choice(states) for _ in range(rng.randint(1, 3))]      # revisits
+        _dups(sc, rng)
         scs.append(sc)
     return scs, [("seeded random machine classes (finals, multi-event, self, internal transitions, cond / unless "
                   "guards, four declaration styles): the class graph and the instance graph in 1..all of its "
